@@ -37,6 +37,7 @@ func nBlock(stmts ...*N) *N            { return &N{K: "block", C: stmts} }
 func nCall(f *N, args ...*N) *N        { return &N{K: "call", C: append([]*N{f}, args...)} }
 func nVar(name string, e *N) *N        { return &N{K: "var", S: name, C: []*N{e}} }
 func nAssign(name, op string, e *N) *N { return &N{K: "assign", S: name + " " + op, C: []*N{e}} }
+func b2iInt(b bool) int                { return int(b2i(b)) }
 func b2i(b bool) int64 {
 	if b {
 		return 1
@@ -204,6 +205,9 @@ func Expr(x *N) string {
 		parts := make([]string, len(x.C))
 		for i, c := range x.C {
 			parts[i] = sub(c, 3, false)
+			if c.K == "tern" { // the else branch of a ternary extends as far as it can: `c ? a : b | f` is `c ? a : (b | f)`
+				parts[i] = "(" + Expr(c) + ")"
+			}
 		}
 		return strings.Join(parts, " | ")
 	case "paren":
@@ -276,7 +280,10 @@ func Stmt(s *N) string {
 			return "return"
 		}
 		return "return " + Expr(s.C[0])
-	case "defer":
+	case "defer": // C[0] = call / mcall; after `defer` the parser wants `func` or an identifier: no parentheses around a literal callee
+		if c := s.C[0]; c.K == "call" && c.C[0].K == "func" {
+			return "defer " + Expr(c.C[0]) + "(" + exprList(c.C[1:]) + ")"
+		}
 		return "defer " + Expr(s.C[0])
 	case "expr":
 		return Expr(s.C[0])
@@ -374,6 +381,9 @@ type GenOpts struct {
 	CtlHeavy      bool // favour loops/switch/break/continue/return placement (C04)
 	NoCtlInSwitch bool // stay inside the guard NoCtlUnderOperands
 	Shadow        bool // nested scopes may redeclare (shadow) an outer variable
+	TryDefer      bool // error(), try() with handler chains, defer inside functions (opt-in: C01)
+	Pipes         bool // pipe expressions `x | f | g(a)` (opt-in: C01)
+	Sets          bool // set literals, one-entry map literals with index / assignment / in, string index and slice (opt-in: C01)
 }
 
 type gvar struct {
@@ -381,7 +391,8 @@ type gvar struct {
 	ty    string // int bool str list func
 	cnst  bool
 	arity int
-	req   int // required (non-default) parameters
+	req   int    // required (non-default) parameters
+	key   string // ty "map": a key the map is known to hold
 }
 
 type gen struct {
@@ -395,6 +406,7 @@ type gen struct {
 	sw     int // switch nesting depth inside the current loop
 	budget int
 	prints int
+	raise  int // > 0 inside the function argument of a try: raising is expected there
 }
 
 func GenProgram(r *RNG, o GenOpts) *N {
@@ -408,7 +420,7 @@ func GenProgram(r *RNG, o GenOpts) *N {
 	// the program's value: every int/bool/str variable in scope, in declaration order
 	var items []*N
 	for _, v := range g.scopes[0] {
-		if v.ty == "int" || v.ty == "bool" || v.ty == "str" || v.ty == "list" {
+		if v.ty == "int" || v.ty == "bool" || v.ty == "str" || v.ty == "list" || v.ty == "any" || v.ty == "set" || v.ty == "map" {
 			items = append(items, nId(v.name))
 		}
 	}
@@ -460,6 +472,26 @@ func (g *gen) intExpr(d int) *N {
 			return nId(Pick(g.r, vs).name)
 		}
 		return nInt(g.smallInt())
+	}
+	if g.o.Pipes && g.r.Chance(8) {
+		if x := g.pipeExpr(d); x != nil {
+			return x
+		}
+	}
+	if g.o.Sets && g.r.Chance(6) {
+		switch ss, ms := g.vars("set", false), g.vars("map", false); {
+		case len(ss) > 0 && g.r.Bool():
+			return nCall(nId("len"), nId(Pick(g.r, ss).name))
+		case len(ms) > 0:
+			m := Pick(g.r, ms)
+			if g.r.Chance(25) {
+				return nCall(nId("len"), nId(m.name))
+			}
+			return n("index", nId(m.name), nStr(m.key))
+		}
+	}
+	if g.o.TryDefer && g.fn < 2 && g.noIf == 0 && g.r.Chance(4) { // (no braces inside a template string)
+		return nCall(nId("try"), g.thunk(d, false), nInt(g.smallInt()))
 	}
 	switch g.r.Intn(14) {
 	case 0, 1, 2:
@@ -535,6 +567,16 @@ func (g *gen) boolExpr(d int) *N {
 		}
 		return nInfix(Pick(g.r, []string{"<", "<=", "==", "!=", ">", ">="}), g.intExpr(0), g.intExpr(0))
 	}
+	if g.o.Sets && g.r.Chance(8) {
+		k := Pick(g.r, []string{"in", "notin"})
+		switch ss, ms := g.vars("set", false), g.vars("map", false); {
+		case len(ss) > 0 && g.r.Bool():
+			return n(k, g.intExpr(d-1), nId(Pick(g.r, ss).name))
+		case len(ms) > 0:
+			m := Pick(g.r, ms)
+			return n(k, nStr(Pick(g.r, []string{m.key, "zz"})), nId(m.name))
+		}
+	}
 	switch g.r.Intn(8) {
 	case 0, 1, 2:
 		return nInfix(Pick(g.r, []string{"<", "<=", "==", "!=", ">", ">="}), g.intExpr(d-1), g.intExpr(d-1))
@@ -566,6 +608,26 @@ func (g *gen) strExpr(d int) *N {
 			return nId(Pick(g.r, vs).name)
 		}
 		return nStr(Pick(g.r, words))
+	}
+	if g.o.Sets && g.r.Chance(20) { // index / slice by rune
+		var base *N
+		if len(vs) > 0 && g.r.Bool() {
+			base = nId(Pick(g.r, vs).name) // may be empty or short: index / slice errors
+		} else {
+			base = nStr(Pick(g.r, []string{"risor", "x y", "bc", "héllo"}))
+		}
+		switch g.r.Intn(5) {
+		case 0:
+			return n("index", base, nInt(int64(g.r.Intn(2))-int64(g.r.Intn(2))))
+		case 1:
+			return n("slice", base, nInt(int64(g.r.Intn(2))), n("none"))
+		case 2:
+			return n("slice", base, n("none"), nInt(int64(g.r.Intn(3))))
+		case 3:
+			return n("slice", base, nInt(0), nInt(int64(g.r.Intn(3))))
+		default:
+			return n("index", base, g.intExpr(0))
+		}
 	}
 	switch g.r.Intn(5) {
 	case 0:
@@ -639,6 +701,38 @@ func (g *gen) ctl(d int) *N {
 func (g *gen) stmt(d int) []*N {
 	g.budget -= 2
 	deep := d < g.o.MaxDepth && g.budget > 0
+	if g.o.TryDefer && g.r.Chance(14+16*b2iInt(g.fn > 0)) {
+		if ss := g.tryDeferStmt(d); ss != nil {
+			return ss
+		}
+	}
+	if g.o.Sets && g.r.Chance(8) {
+		switch ms := g.vars("map", true); {
+		case g.r.Chance(35): // a set of ints (sometimes with a repeated item, sometimes mixed with a string)
+			name := g.fresh("u")
+			x := n("set")
+			for i, k := 0, 1+g.r.Intn(4); i < k; i++ {
+				x.C = append(x.C, g.intExpr(1))
+			}
+			if g.r.Chance(20) {
+				x.C = append(x.C, nStr(Pick(g.r, words)))
+			}
+			g.declare(name, "set")
+			return []*N{nVar(name, x)}
+		case g.r.Chance(50) || len(ms) == 0: // a map literal with ONE entry (two or more compile in Go map order)
+			name := g.fresh("m")
+			key := Pick(g.r, []string{"a", "k", "key", "x y"})
+			e := g.intExpr(1)
+			g.scopes[len(g.scopes)-1] = append(g.scopes[len(g.scopes)-1], gvar{name: name, ty: "map", key: key})
+			return []*N{nVar(name, n("map", nStr(key), e))}
+		default:
+			m := Pick(g.r, ms)
+			if g.r.Bool() {
+				return []*N{ns("setitem", "=", nId(m.name), nStr(Pick(g.r, []string{m.key, "b", "c"})), g.intExpr(1))}
+			}
+			return []*N{ns("setitem", Pick(g.r, []string{"+=", "*="}), nId(m.name), nStr(m.key), g.intExpr(1))}
+		}
+	}
 	choice := g.r.Intn(30)
 	if g.o.CtlHeavy && g.r.Chance(45) {
 		choice = 14 + g.r.Intn(12)
@@ -971,6 +1065,238 @@ func (g *gen) stmt(d int) []*N {
 	e := g.intExpr(1)
 	g.declare(name, "int")
 	return []*N{nVar(name, e)}
+}
+
+// ---------------------------------------------------------------- error(), try(), defer, pipes (opt-in)
+
+var raiseWords = []string{"boom", "bad value", "e1", "stop", "x y"} // (never empty: EvalSrc tells errors by their text)
+
+// noCall returns x unless it contains a call, a pipe or a function literal (inside a pipe stage
+// every call of the current code object compiles to a Partial); then a leaf takes its place.
+func (g *gen) noCall(x *N) *N {
+	bad := false
+	Walk(x, func(y *N, _ []*N) {
+		switch y.K {
+		case "call", "mcall", "pipe", "func":
+			bad = true
+		}
+	}, nil)
+	if bad {
+		if vs := g.vars("int", false); len(vs) > 0 && g.r.Bool() {
+			return nId(Pick(g.r, vs).name)
+		}
+		return nInt(g.smallInt())
+	}
+	return x
+}
+
+// pipeExpr: `x | f`, `x | f(a)`, `x | func(p) { … }`, `l | len`, one or two stages; nil when no
+// suitable function is in scope.
+func (g *gen) pipeExpr(d int) *N {
+	var fs []gvar
+	for _, f := range g.vars("func", false) {
+		if f.arity >= 1 && f.req <= f.arity {
+			fs = append(fs, f)
+		}
+	}
+	stage := func() *N {
+		switch {
+		case len(fs) > 0 && g.r.Chance(70):
+			f := Pick(g.r, fs)
+			lo := f.req - 1 // written arguments: the piped value is the first one
+			if lo < 0 {
+				lo = 0
+			}
+			k := lo + g.r.Intn(f.arity-1-lo+1)
+			if k == 0 && g.r.Bool() {
+				return nId(f.name)
+			}
+			args := make([]*N, k)
+			for i := range args {
+				args[i] = g.noCall(g.intExpr(d - 1))
+			}
+			return nCall(nId(f.name), args...)
+		case g.fn < 2 && g.noIf == 0:
+			p := g.fresh("p")
+			g.push()
+			g.declare(p, "int")
+			savedLoop, savedSw := g.loop, g.sw
+			g.loop, g.sw = 0, 0
+			g.fn++
+			body := nBlock(n("return", nInfix(Pick(g.r, []string{"+", "-", "*"}), nId(p), g.intExpr(1))))
+			g.fn--
+			g.loop, g.sw = savedLoop, savedSw
+			g.pop()
+			return ns("func", "", n("params", ns("param", p)), body)
+		}
+		return nil
+	}
+	var first *N
+	if ls := g.vars("list", false); len(ls) > 0 && g.o.Containers && g.r.Chance(25) {
+		first = nPipe(nId(Pick(g.r, ls).name), nId("len")) // a list piped into a builtin: an int from here on
+		if g.r.Bool() {
+			return first
+		}
+	} else {
+		first = g.intExpr(d - 1)
+	}
+	st := stage()
+	if st == nil {
+		return nil
+	}
+	x := nPipe(first, st)
+	if g.r.Chance(35) {
+		if st2 := stage(); st2 != nil {
+			x.C = append(x.C, st2)
+		}
+	}
+	return x
+}
+
+// thunk: `func() { stmts; [if c { error(w) }]; value }` — the function argument of a try (raising
+// = true: an error is likely) or a deferred literal.
+func (g *gen) thunk(d int, raising bool) *N {
+	g.push()
+	savedLoop, savedSw := g.loop, g.sw
+	g.loop, g.sw = 0, 0
+	g.fn++
+	if raising {
+		g.raise++
+	}
+	var stmts []*N
+	for i, k := 0, g.r.Intn(3); i < k && g.budget > 0; i++ {
+		stmts = append(stmts, g.stmt(d+1)...)
+	}
+	if raising && g.r.Chance(60) {
+		c := g.boolExpr(1)
+		if g.r.Chance(45) {
+			c = nBool(true)
+		}
+		stmts = append(stmts, n("expr", n("if", c, nBlock(nRaise(Pick(g.r, raiseWords))))))
+	}
+	val := g.intExpr(1)
+	if fs := g.vars("func", false); len(fs) > 0 && g.r.Chance(40) { // call a function: its deferred calls and raises happen
+		f := Pick(g.r, fs)
+		nargs := f.req
+		if f.req < f.arity {
+			nargs = f.req + g.r.Intn(f.arity-f.req+1)
+		}
+		args := make([]*N, nargs)
+		for i := range args {
+			args[i] = g.intExpr(0)
+		}
+		val = nCall(nId(f.name), args...)
+	}
+	if g.r.Bool() {
+		stmts = append(stmts, n("return", val))
+	} else {
+		stmts = append(stmts, n("expr", val))
+	}
+	if raising {
+		g.raise--
+	}
+	g.fn--
+	g.loop, g.sw = savedLoop, savedSw
+	g.pop()
+	return ns("func", "", n("params"), nBlock(stmts...))
+}
+
+// handler: `func(e) { … }` / `func() { … }` with an int result, or a handler that raises again.
+func (g *gen) handler(d int, reraise bool) *N {
+	g.push()
+	savedLoop, savedSw := g.loop, g.sw
+	g.loop, g.sw = 0, 0
+	g.fn++
+	params := n("params")
+	e := ""
+	if g.r.Chance(70) {
+		e = g.fresh("e")
+		params.C = append(params.C, ns("param", e))
+	}
+	var stmts []*N
+	switch {
+	case e != "" && g.r.Chance(35):
+		stmts = append(stmts, nPrint(nStr("caught"), nId(e)))
+	case g.r.Chance(30):
+		stmts = append(stmts, nPrint(nStr("handler"), g.intExpr(0)))
+	}
+	if g.r.Chance(30) && g.budget > 0 {
+		stmts = append(stmts, g.stmt(d+1)...)
+	}
+	switch {
+	case reraise && e != "" && g.r.Bool():
+		stmts = append(stmts, nExpr(nCall(nId("error"), nId(e))))
+	case reraise:
+		stmts = append(stmts, nRaise(Pick(g.r, raiseWords)))
+	default:
+		stmts = append(stmts, n("return", g.intExpr(1)))
+	}
+	g.fn--
+	g.loop, g.sw = savedLoop, savedSw
+	g.pop()
+	return ns("func", "", params, nBlock(stmts...))
+}
+
+// tryDeferStmt: one statement of the error/defer family, or nil when none fits here.
+func (g *gen) tryDeferStmt(d int) []*N {
+	g.budget -= 2
+	lits := g.fn < 2 // function literals only two levels deep: free variables stay one function level up
+	switch c := g.r.Intn(10); {
+	case c < 4 && lits: // t := try(thunk, handlers…, [value])
+		args := []*N{g.thunk(d, true)}
+		if g.r.Chance(25) {
+			args = append(args, g.handler(d, true))
+		}
+		ty := "int"
+		switch g.r.Intn(4) {
+		case 0:
+			args = append(args, nInt(g.smallInt()))
+		case 1:
+			ty = "any" // nothing left after the last failure: nil
+			if g.r.Bool() {
+				args = append(args, g.handler(d, false))
+				ty = "int"
+			}
+		default:
+			args = append(args, g.handler(d, false))
+		}
+		if len(args) > 2 {
+			ty = "any" // the handler after a failing handler may itself fail
+		}
+		name := g.fresh("t")
+		g.declare(name, ty)
+		return []*N{nVar(name, nTry(args...))}
+	case c < 5 && lits: // the caught error as a value
+		name, e := g.fresh("t"), g.fresh("e")
+		g.declare(name, "any")
+		return []*N{nVar(name, nTry(g.thunk(d, true), nFunc("", []string{e}, n("return", nId(e)))))}
+	case c < 8 && g.fn > 0: // defer
+		switch k := g.r.Intn(4); {
+		case k == 0 && lits && g.loop == 0:
+			// (not inside a loop: a variable declared in a loop body lives in ONE slot of the function, so a
+			// closure that outlives its iteration sees the last iteration's value — finding
+			// C01-loop-body-variable-shared; the reference semantics allocates per iteration)
+			return []*N{nDefer(nCall(g.thunk(d, g.r.Chance(15))))}
+		case k == 1 && g.loop == 0: // (same reason: a function declared in the loop body captures the body's variables)
+			if fs := g.vars("func", false); len(fs) > 0 {
+				f := Pick(g.r, fs)
+				nargs := f.req
+				if f.req < f.arity {
+					nargs = f.req + g.r.Intn(f.arity-f.req+1)
+				}
+				args := make([]*N, nargs)
+				for i := range args {
+					args[i] = g.intExpr(1)
+				}
+				return []*N{nDefer(nCall(nId(f.name), args...))}
+			}
+		}
+		g.prints++
+		return []*N{nDefer(nCall(nId("print"), nStr("deferred"), g.intExpr(1)))}
+	case c < 10 && (g.raise > 0 || (g.fn > 0 && g.r.Chance(25))): // raise under a condition
+		return []*N{n("expr", n("if", g.boolExpr(1), nBlock(nRaise(Pick(g.r, raiseWords)))))}
+	}
+	return nil
 }
 
 // ---------------------------------------------------------------- shrinking
